@@ -1,4 +1,5 @@
 import VaxisModel.Lemmas.EdLangTFBody
+import VaxisModel.Lemmas.EdLangTIBody
 
 /-!
 C17 — the bodies of the TextField's functions, translated from the source on every run
@@ -85,5 +86,73 @@ theorem clSane_of_segmentation (cl : List A → List (List A)) (h : VaxisModel.S
 /-- Non-vacuity: the segmentation that never merges is sane. -/
 example : ClSane (VaxisModel.Lemmas.EditorCl.singletons (A := Nat)) :=
   clSane_of_seg _ VaxisModel.Lemmas.EditorCl.singletons_seg
+
+/-! ### textinput.Model -/
+
+open VaxisModel.Lemmas.EdLangTIBody in
+/-- `SetContent` -/
+theorem ti_setContent_body_eq_model (cl : List A → List (List A)) (al : List A → Bool) (m : TextInputCl.TIC A) (s : List A) :
+    tiRunSetContent genTi cl al m s = some (TextInputCl.setContent cl m s) :=
+  setContent_body_eq_model cl al m s
+
+open VaxisModel.Lemmas.EdLangTIBody in
+/-- `resegment`: re-segments the text, cursor behind the text it was behind; panics exactly when the model says so. -/
+theorem ti_resegment_body_eq_model (cl : List A → List (List A)) (al : List A → Bool) (m : TextInputCl.TIC A) :
+    callMethod (tiCx0 cl al) tiKeys tiResegment [] (envOfTI m) =
+      (TextInputCl.resegment cl m).map fun m' => (envOfTI m', .opaque) :=
+  resegment_body_eq_model cl al m
+
+/-- The key strings whose arm of `Update` is proved equal to the model's (no loop inside). -/
+def provenKeys : List String :=
+  ["Ctrl+a", "Home", "Ctrl+e", "End", "Ctrl+f", "Right", "Ctrl+b", "Left", "Ctrl+d", "Delete", "Ctrl+k", "Ctrl+u", "Ctrl+h", "BackSpace"]
+
+/-- The events for which `Update`'s translated body is proved to be the model: everything but key
+    presses, the fourteen keys above, and Ctrl+w with the cursor inside a non-empty prefix. -/
+def Covered (m : TextInputCl.TIC A) : TextInputCl.Ev A → Prop
+  | .key s _ _ _ _ => s ∈ provenKeys ∨ (s = "Ctrl+w" ∧ m.cursor ≠ 0 ∧ 0 ≤ m.cursor ∧ m.cursor ≤ m.content.length)
+  | _ => True
+
+/-- The full statement (open for Alt+f / Alt+b / Ctrl+Right / Ctrl+Left, Ctrl+w outside the range, and the
+    default arm; there the driver compares the interpreted body with the model on every op). -/
+def ti_update_body_eq_model_full : Prop :=
+  ∀ (A : Type) [DecidableEq A] (cl : List A → List (List A)) (al : List A → Bool) (m : TextInputCl.TIC A) (ev : TextInputCl.Ev A),
+    tiRunUpdate genTi cl al m ev = TextInputCl.update cl al m ev
+
+open VaxisModel.Lemmas.EdLangTIBody in
+/-- `Update`: the type switch, the paste bracket (PasteEnd inserts `Characters(string(m.paste))`, paste keys
+    append to the buffer), the release test, the key map, the final clamping and `m.resegment()` — translated
+    from the source and run by the interpreter — is the model's `update`, result for result, panic for panic,
+    on every covered event. -/
+theorem ti_update_body_eq_model_partial (cl : List A → List (List A)) (al : List A → Bool) (m : TextInputCl.TIC A)
+    (ev : TextInputCl.Ev A) (h : Covered m ev) :
+    tiRunUpdate genTi cl al m ev = TextInputCl.update cl al m ev := by
+  cases ev with
+  | pasteEnd => exact update_pasteEnd cl al m
+  | release => exact update_release cl al m
+  | pasteKey t => exact update_pasteKey cl al m t
+  | other => exact update_other cl al m
+  | key s c a sup t =>
+    rcases h with h | ⟨rfl, h0, hr⟩
+    · simp only [provenKeys, List.mem_cons, List.mem_nil_iff, or_false] at h
+      rcases h with rfl | rfl | rfl | rfl | rfl | rfl | rfl | rfl | rfl | rfl | rfl | rfl | rfl | rfl
+      · exact update_ctrl_a cl al m c a sup t
+      · exact update_home cl al m c a sup t
+      · exact update_ctrl_e cl al m c a sup t
+      · exact update_end cl al m c a sup t
+      · exact update_ctrl_f cl al m c a sup t
+      · exact update_right cl al m c a sup t
+      · exact update_ctrl_b cl al m c a sup t
+      · exact update_left cl al m c a sup t
+      · exact update_ctrl_d cl al m c a sup t
+      · exact update_delete cl al m c a sup t
+      · exact update_ctrl_k cl al m c a sup t
+      · exact update_ctrl_u cl al m c a sup t
+      · exact update_ctrl_h cl al m c a sup t
+      · exact update_backspace cl al m c a sup t
+    · exact update_ctrl_w_inrange cl al m c a sup t h0 hr
+
+/-- Non-vacuity: Ctrl+w in the middle of "ab cd" is covered. -/
+example : Covered (A := Nat) ⟨[[1], [2], [0], [3], [4]], 5, 0, []⟩ (.key "Ctrl+w" false false false []) := by
+  right; decide
 
 end VaxisModel.Props.C17Body
